@@ -58,6 +58,134 @@ def attrLocations (base : Nat) (a : Bytes × Bytes × AttrOutline) : Option (Ran
   else some (⟨base + a.2.2.name.start, base + a.2.2.name.start + a.1.length⟩,
              ⟨base + a.2.2.value.start, base + a.2.2.value.start + a.2.1.length⟩)
 
+/-! ### Edits (`set_attribute`, `remove_attribute`, `set_tag_name`) and reads after them
+
+The first edit materialises the attribute list (`as_mut_vec` / `init_items`, attributes.rs:303-317);
+from then on every read goes through the materialised list (`map_attribute`: `self.items.get()`).
+An attribute that was added or whose value was set has lost its source (`raw = None`,
+`name_value_start = None`). -/
+
+/-- an `Attribute` of the materialised list: name, value, source outline while untouched -/
+abbrev EAttrList := List (Bytes × Bytes × Option AttrOutline)
+
+/-- `init_items` (attributes.rs:293) -/
+def materialise (attrs : AttrList) : EAttrList := attrs.map fun a => (a.1, a.2.1, some a.2.2)
+
+inductive AttrNameError
+  | empty
+  | forbidden (ch : UInt8)
+  deriving DecidableEq, Repr, Inhabited
+
+/-- `Attribute::name_from_string` (attributes.rs:67) with its error (`UnencodableCharacter` cannot
+occur for a byte string) -/
+def nameFromStringE (name : Bytes) : Except AttrNameError Bytes :=
+  if name.isEmpty then .error .empty
+  else match name.find? (fun ch => Gen.Consts.attrNameReject.contains ch) with
+    | some ch => .error (.forbidden ch)
+    | none => .ok name
+
+/-- `iter_mut().find(..)` then `set_value` (attributes.rs:236-241, :141): the FIRST attribute whose name
+matches keeps its name (case preserved), gets the value, loses its source -/
+def setFirst (lname value : Bytes) : EAttrList → Option EAttrList
+  | [] => none
+  | a :: rest =>
+    if eqCaseInsensitive a.1 lname then some ((a.1, value, none) :: rest)
+    else (setFirst lname value rest).map (a :: ·)
+
+/-- `Attributes::set_attribute` (attributes.rs:228): lower-cased, validated name; replace the first
+match or push `name="value"` at the end -/
+def setAttribute (items : EAttrList) (name value : Bytes) : Except AttrNameError EAttrList :=
+  match nameFromStringE (asciiLowerBytes name) with
+  | .error e => .error e
+  | .ok lname =>
+    match setFirst lname value items with
+    | some items' => .ok items'
+    | none => .ok (items ++ [(lname, value, none)])
+
+/-- `Attributes::remove_attribute` (attributes.rs:254): every attribute whose name matches goes; an
+invalid name removes nothing. The flag is `len_before != items.len()`. -/
+def removeAttribute (items : EAttrList) (name : Bytes) : EAttrList × Bool :=
+  match nameFromStringE (asciiLowerBytes name) with
+  | .error _ => (items, false)
+  | .ok lname =>
+    let items' := items.filter fun a => !eqCaseInsensitive a.1 lname
+    (items', items.length != items'.length)
+
+/-- `map_attribute` on the materialised list -/
+def mapAttributeE (items : EAttrList) (query : Bytes) : Option (Bytes × Bytes × Option AttrOutline) :=
+  match nameFromStringE (asciiLowerBytes query) with
+  | .error _ => none
+  | .ok name => items.find? fun a => eqCaseInsensitive a.1 name
+
+def getAttributeE (items : EAttrList) (query : Bytes) : Option Bytes := (mapAttributeE items query).map (·.2.1)
+def hasAttributeE (items : EAttrList) (query : Bytes) : Bool := ((mapAttributeE items query).map fun _ => true).getD false
+
+/-- `attributes()` after edits: `name()`, `value()` -/
+def attributesE (items : EAttrList) : List (Bytes × Bytes) := items.map fun a => (asciiLowerBytes a.1, a.2.1)
+
+/-- locations after edits: `None` for added / modified attributes -/
+def attrLocationsE (base : Nat) (a : Bytes × Bytes × Option AttrOutline) : Option (Range × Range) :=
+  match a.2.2 with
+  | none => none
+  | some o => attrLocations base (a.1, a.2.1, o)
+
+inductive TagNameError
+  | empty
+  | invalidFirstCharacter
+  | forbidden (ch : UInt8)
+  deriving DecidableEq, Repr, Inhabited
+
+def isAsciiAlpha (b : UInt8) : Bool := (65 ≤ b && b ≤ 90) || (97 ≤ b && b ≤ 122)
+
+/-- `Element::tag_name_bytes_from_str` (element.rs:76): the name is NOT lower-cased -/
+def tagNameFromStr (name : Bytes) : Except TagNameError Bytes :=
+  match name with
+  | [] => .error .empty
+  | ch :: _ =>
+    if !isAsciiAlpha ch then .error .invalidFirstCharacter
+    else match name.find? (fun c => Gen.Consts.tagNameReject.contains c) with
+      | some c => .error (.forbidden c)
+      | none => .ok name
+
+/-- the editable part of an element's start tag -/
+structure ETag where
+  name : Bytes
+  items : EAttrList
+  deriving DecidableEq, Repr, Inhabited
+
+inductive Edit
+  | set (name value : Bytes)
+  | remove (name : Bytes)
+  | rename (name : Bytes)
+  deriving DecidableEq, Repr, Inhabited
+
+inductive EditRes
+  | ok
+  | attrName (e : AttrNameError)
+  | tagName (e : TagNameError)
+  deriving DecidableEq, Repr, Inhabited
+
+/-- `Element::set_attribute` / `remove_attribute` / `set_tag_name` (element.rs:219, :225, :135; start_tag.rs:66, :121,
+:131): a rejected edit changes nothing -/
+def ETag.apply (t : ETag) : Edit → ETag × EditRes
+  | .set n v =>
+    match setAttribute t.items n v with
+    | .ok items => ({ t with items := items }, .ok)
+    | .error e => (t, .attrName e)
+  | .remove n => ({ t with items := (removeAttribute t.items n).1 }, .ok)
+  | .rename n =>
+    match tagNameFromStr n with
+    | .ok nm => ({ t with name := nm }, .ok)
+    | .error e => (t, .tagName e)
+
+def ETag.applyAll (t : ETag) : List Edit → ETag × List EditRes
+  | [] => (t, [])
+  | e :: es =>
+    let r := t.apply e
+    let rest := r.1.applyAll es
+    (rest.1, r.2 :: rest.2)
+
+
 /-- `is_void_element` (selectors_vm/stack.rs:13) without ESI tags, on the `LocalName` of the tag:
 names that have no hash are never void. -/
 def isVoidElement (cfg : TagCfg) : LocalName → Bool
